@@ -46,10 +46,14 @@ CLAIMS = {
              "(C04_one_char_optimum_ascii: scan invariant over every haystack; the early exit is sound because no bonus exceeds max_bonus). Upper bound and the one-character optimum are also checked against a brute force over all alignments for small inputs; the lower bound is also an oracle of its own: "
              "implementation score >= the model's recurrence evaluated on the full matrix (every haystack column, no prefilter window) whenever the whole haystack fits the slab."),
     "C05": dict(
-        technique="Lean 4 theorems (occurrence list, trimming helpers, exact_match_impl decision) + occurrence/anchoring oracle on the implementation",
+        technique="Lean 4 theorems (prefix/postfix/exact decisions in full; occurrence list, trimming helpers, exact_match_impl) + occurrence/anchoring oracle on the implementation",
         text="Partial proof. Theorems: characterisation of the specification's occurrence list; the code's position(..).unwrap_or(0) trimming equals the whitespace counts unless the "
-             "haystack is all whitespace; exact_match_impl succeeds iff lengths agree and the normalized window equals the needle (per representation pair). The four iff statements "
-             "are evaluated by the oracle on every case (leftmost best-bonus occurrence, prefix/postfix/exact with the representation's whitespace predicate). K1 is a KNOWN-FINDING."),
+             "haystack is all whitespace; exact_match_impl succeeds iff lengths agree and the normalized window equals the needle (per representation pair); the prefix, postfix and "
+             "exact decisions are full theorems (C05_prefix, C05_postfix, C05_exact: for every configuration, haystack, already-normalized needle and representation pair other than "
+             "K1's, the matcher succeeds iff the needle equals the normalized haystack text at the start / at the end / as a whole, leading or trailing haystack whitespace - by the "
+             "representation's own predicate - being skipped unless the needle itself starts / ends with whitespace; including all-whitespace haystacks, where the code's "
+             "unwrap_or(0) skips nothing but a normalized whitespace character can not equal a non-whitespace needle character). The substring statement (leftmost best-bonus "
+             "occurrence) is evaluated by the oracle on every case; its one-character instance is a theorem (C04_one_char_optimum_ascii). K1 is a KNOWN-FINDING."),
     "C10": dict(
         technique="Lean 4 theorem over all sizes about the translated slab layout + run-time extents hook + overflow-checked correspondence with poisoned slab",
         text="Theorem (all window and needle lengths, both character sizes): the five views MatrixSlab::alloc hands out are inside the slab, pairwise disjoint and aligned; view and layout "
